@@ -244,6 +244,8 @@ static void body(Ctx& C)
             out.count("sequences_checked", o.sequences); out.count("sequence_elements_visited", o.elements); out.count("out_of_range_probes", o.out_of_range);
             out.count("optionals_empty", o.optionals_empty); out.count("optionals_set", o.optionals_set); out.count("keyed_lookups", o.keyed_lookups); out.count("objects_swept", o.objects);
             out.count("nodes_swept", swept);
+            if (o.calls > 12 && o.refusals > 0 && o.sequences > 0) out.line("S\t" + J().s("kind", "node-sweep").s("class", cls).s("state", state).n("accessor_calls", o.calls).n("returned_a_value", o.values).n("refused_with_logic_error", o.refusals)
+                                                                          .n("sequences_iterated", o.sequences).n("out_of_range_probes_refused", o.out_of_range).n("empty_optionals", o.optionals_empty).str());
             for (auto& [k, v] : o.per_accessor) out.eval(hash_mix(hash_bytes(k), hash_bytes(cls)));
             for (auto& [k, v] : o.classes) out.count("class:" + k, v);
          };
@@ -272,8 +274,6 @@ static void body(Ctx& C)
 #undef VH_X
    if (!missing.empty()) C.inconclusive("leaf interface classes never swept: " + missing);
    for (auto k : { "accessor_calls", "calls_returning_a_value", "calls_refused_with_logic_error", "sequences_checked", "out_of_range_probes", "optionals_empty", "optionals_set", "keyed_lookups", "cases_completed" }) C.need(k);
-   C.sample(J().s("kind", "node").s("what", "make_for(state 5): For.initializer -> value, For.condition -> logic_error, ...; every accessor of ipr::For and of its bases").str());
-   C.sample(J().s("kind", "container").s("what", "class with 1000 fields: Scope.elements iterated, position(1000), position(2^32), position(SIZE_MAX), --begin(), *end() refused").str());
 }
 
 int main(int argc, char** argv) { return guarded_main(argc, argv, body); }
